@@ -2,7 +2,8 @@
  * Allocator: common/mem_fail.h (each allocation may fail independently => all fault schedules in one query).
  * Asserted per unit: result in {SUCCESS, ERROR_INSUFFICIENT_MEMORY}; no NULL dereference / OOB (CBMC checks);
  * objects can still be destroyed; nothing leaks after the documented clean-up (vf_live == 0).
- *  -DVF_UNIT=1 arena.c   2 notebook.c   3 stack.c   4 hash.c   5 atoms.c (string)   6 object.c   7 sizedstr.c
+ *  -DVF_UNIT=1 arena.c   2 notebook.c   3 stack.c   4 hash.c   5 atoms.c (string)   6 object.c (scalar)   7 sizedstr.c
+ *           8 rules.c   9 object.c (structure + copy)
  */
 #if VF_UNIT == 1
 #define VF_OBJ 64
@@ -33,6 +34,10 @@
 #elif VF_UNIT == 5
 #include "atoms.c"
 #elif VF_UNIT == 6
+#include "strutils.c"
+#include "hash.c"
+#include "object.c"
+#elif VF_UNIT == 9
 #include "strutils.c"
 #include "hash.c"
 #include "object.c"
@@ -173,6 +178,31 @@ int main(void)
     yr_object_destroy(o);
   }
   VF_ASSERT(vf_live == 0, "nothing leaks after yr_object_destroy");
+#elif VF_UNIT == 9
+  /* a structure with an integer and a string member, copied (what OP_CALL does with a function's return object) and
+     both destroyed: every allocation may fail */
+  YR_OBJECT *st = NULL, *mi = NULL, *ms = NULL, *cp = NULL;
+  int r = yr_object_create(OBJECT_TYPE_STRUCTURE, "s", NULL, &st);
+  OK_OR_NOMEM(r);
+  if (r == ERROR_SUCCESS)
+  {
+    int r1 = yr_object_create(OBJECT_TYPE_INTEGER, "i", st, &mi);
+    OK_OR_NOMEM(r1);
+    int r2 = yr_object_create(OBJECT_TYPE_STRING, "t", st, &ms);
+    OK_OR_NOMEM(r2);
+    if (r1 == ERROR_SUCCESS) { int r3 = yr_object_set_integer(7, st, "i"); VF_ASSERT(r3 == ERROR_SUCCESS, "setting an existing integer member allocates nothing"); }
+    if (r2 == ERROR_SUCCESS) { int r4 = yr_object_set_string("xy", 2, st, "t"); OK_OR_NOMEM(r4); }
+    int r5 = yr_object_copy(st, &cp);
+    OK_OR_NOMEM(r5);
+    if (r5 == ERROR_SUCCESS)
+    {
+      VF_ASSERT(cp != NULL && cp != st && cp->type == OBJECT_TYPE_STRUCTURE, "the copy is a distinct structure");
+      if (r1 == ERROR_SUCCESS) VF_ASSERT(yr_object_get_integer(cp, "i") == 7, "the copy carries the integer member's value");
+      yr_object_destroy(cp);
+    }
+    yr_object_destroy(st);
+  }
+  VF_ASSERT(vf_live == 0, "nothing leaks after destroying the structure and its copy");
 #elif VF_UNIT == 7
   SIZED_STRING* a = ss_new("ab");
   if (a != NULL)
